@@ -146,7 +146,7 @@ package sm4
 //@ (defmacro extfact (d) (apply-lemma sm4.rounds_ext (r1 (row (subk))) (o1 (off (subk))) (r2 (sm4.ksrow (MK))) (o2 0) (dec d) (n 32)))
 
 //@ (func Sm4Ecb
-//@   (uses "sm4" "modes")
+//@   (uses "sm4" "sm4:keyed" "modes")
 //@   (ensures keylen (=> (not (= (len key) 16)) (and (isnil out) (not (isnil err)))))
 //@   (ensures noerr (=> (= (len key) 16) (isnil err)))
 //@   (ensures enclen (=> (and (= (len key) 16) mode) (= (len out) (bvadd (len in) (pkcs7.padlen (len in))))))
@@ -189,7 +189,7 @@ package sm4
 //@     (decreases (bvsub (bvsdiv (len inData) 16) i))))
 
 //@ (func Sm4Cbc
-//@   (uses "sm4" "modes")
+//@   (uses "sm4" "sm4:keyed" "modes")
 //@   (requires ivlen (= (len (global "sm4.IV")) 16))
 //@   (ensures keylen (=> (not (= (len key) 16)) (and (isnil out) (not (isnil err)))))
 //@   (ensures noerr (=> (= (len key) 16) (isnil err)))
@@ -205,7 +205,7 @@ package sm4
 //@     (decreases (bvsub (bvsdiv (len inData) 16) i))))
 
 //@ (func Sm4CFB
-//@   (uses "sm4" "modes")
+//@   (uses "sm4" "sm4:keyed" "modes")
 //@   (requires ivlen (= (len (global "sm4.IV")) 16))
 //@   (ensures keylen (=> (not (= (len key) 16)) (and (isnil out) (not (isnil err)))))
 //@   (ensures noerr (=> (= (len key) 16) (isnil err)))
@@ -220,7 +220,7 @@ package sm4
 //@     (decreases (bvsub (bvsdiv (len inData) 16) i))))
 
 //@ (func Sm4OFB
-//@   (uses "sm4" "modes")
+//@   (uses "sm4" "sm4:keyed" "modes")
 //@   (requires ivlen (= (len (global "sm4.IV")) 16))
 //@   (ensures keylen (=> (not (= (len key) 16)) (and (isnil out) (not (isnil err)))))
 //@   (ensures noerr (=> (= (len key) 16) (isnil err)))
